@@ -1,20 +1,56 @@
 /-
-"The on-tree arcs form a spanning tree" as an executable certificate check (the `TreeCfg`
-presentation of DESIGN 6.C08, given as data over the index-based `Func` instead of a rose tree):
-`depth b` is the distance of block `b` from block 0 along tree arcs and `parc b` the id of the
-tree arc that joins `b` to its parent.  `treeCert` checks, locally and decidably,
+"The on-tree arcs form a spanning forest" – the `TreeCfg` presentation of DESIGN 6.C08, given as a
+certificate over the index-based `Func` instead of a rose tree: `depth b` is the distance of block
+`b` from the root of its tree along on-tree arcs, `parc b` the id of the on-tree arc that joins a
+non-root block to its parent, `root b` the root of its tree.
+
+`SpanForest` (a proposition, the hypothesis of `C08_flow_recovered`) asks, locally,
   * adjacency consistency: `blocks[b].source` / `.destination` list exactly the arcs into / out of
     `b`, once each, and arc endpoints are block numbers;
-  * every block other than 0 has a parent arc that is on the tree and leads to a block one level
-    up; every on-tree arc is the parent arc of some block; depths are below the block count.
-These conditions hold iff the on-tree arcs form a spanning tree rooted at block 0 (each non-root
-block reaches the root through its parent chain: connected; at most n-1 tree arcs: acyclic).
-`isSpanTree` computes the certificate by breadth-first relaxation and checks it.
-Core Lean only.
+  * every block of positive depth has a parent arc that is on the tree and leads to a block one
+    level up in the same tree; every on-tree arc is the parent arc of some block; depths are below
+    the block count; a root is the smallest block number of its tree.
+These conditions hold iff the on-tree arcs are acyclic (a forest): every block reaches its root
+through its parent chain, and there are no more tree arcs than non-root blocks.  For LLVM ≥ 11
+("408*") notes the on-tree arcs together with the virtual exit→entry arc form one spanning tree
+rooted at block 0; for "402*" notes every real arc carries a counter and only the virtual arc is
+on the tree.
+
+`treeCert` is the same condition as a Boolean over explicit lists, `computeCert` finds the
+certificate by breadth-first search, `isSpanTree` = "consistent and certified": evaluated by the
+harness on every CFG it sees.  Core Lean only.
 -/
 import GrcovModel.Gcno
 namespace Grcov.Gcno
 open Grcov
+
+/-- the hypothesis "on-tree arcs form a forest, rooted at the smallest block of each tree" -/
+structure SpanForest (f : Func) (depth parc root : Nat → Nat) : Prop where
+  arcs_lt : ∀ (e : Nat) (a : Arc), f.arcs[e]? = some a → a.src < f.blocks.length ∧ a.dst < f.blocks.length
+  src_iff : ∀ (b : Nat) (blk : Block) (e : Nat), f.blocks[b]? = some blk →
+    (e ∈ blk.source ↔ ∃ a, f.arcs[e]? = some a ∧ a.dst = b)
+  dst_iff : ∀ (b : Nat) (blk : Block) (e : Nat), f.blocks[b]? = some blk →
+    (e ∈ blk.destination ↔ ∃ a, f.arcs[e]? = some a ∧ a.src = b)
+  src_nodup : ∀ (b : Nat) (blk : Block), f.blocks[b]? = some blk → blk.source.Nodup
+  dst_nodup : ∀ (b : Nat) (blk : Block), f.blocks[b]? = some blk → blk.destination.Nodup
+  parent : ∀ b, b < f.blocks.length → 0 < depth b →
+    ∃ a : Arc, f.arcs[parc b]? = some a ∧ a.onTree = true ∧
+      ((a.src = b ∧ depth a.dst + 1 = depth b ∧ root a.dst = root b) ∨
+       (a.dst = b ∧ depth a.src + 1 = depth b ∧ root a.src = root b))
+  tree_arc : ∀ (e : Nat) (a : Arc), f.arcs[e]? = some a → a.onTree = true →
+    ∃ b, b < f.blocks.length ∧ 0 < depth b ∧ parc b = e
+  depth_lt : ∀ b, b < f.blocks.length → depth b < f.blocks.length
+  root_self : ∀ b, b < f.blocks.length → depth b = 0 → root b = b
+  root_le : ∀ b, b < f.blocks.length → root b ≤ b
+
+/-- a flow: a count for every arc (the virtual arc included) that is conserved at every block;
+the totals fit a u64 -/
+structure Flow (f : Func) (F : Nat → Nat) : Prop where
+  conserve : ∀ (b : Nat) (blk : Block), f.blocks[b]? = some blk →
+    (blk.source.map F).sum = (blk.destination.map F).sum
+  bounded : ∀ (b : Nat) (blk : Block), f.blocks[b]? = some blk → (blk.source.map F).sum ≤ U64MAX
+
+/-! ### the executable certificate -/
 
 def nodupB : List Nat → Bool
   | [] => true
@@ -34,44 +70,62 @@ def wfShape (f : Func) : Bool :=
     (f.blocks.getD ea.2.dst default).source.contains ea.1 &&
     (f.blocks.getD ea.2.src default).destination.contains ea.1)
 
-/-- the parent-arc certificate -/
-def treeCert (f : Func) (depth parc : List Nat) : Bool :=
+/-- the parent-arc certificate as lists indexed by block -/
+def treeCert (f : Func) (depth parc root : List Nat) : Bool :=
   let n := f.blocks.length
   let m := f.arcs.length
-  depth.length == n && parc.length == n && decide (n > 0) && depth.getD 0 1 == 0 &&
-  (List.range n).all (fun b => b == 0 ||
-    (let e := parc.getD b 0
-     let a := f.arcs.getD e default
-     decide (e < m) && a.onTree &&
-       ((a.src == b && depth.getD a.dst 0 + 1 == depth.getD b 0) ||
-        (a.dst == b && depth.getD a.src 0 + 1 == depth.getD b 0)))) &&
+  depth.length == n && parc.length == n && root.length == n &&
+  (List.range n).all (fun b =>
+    decide (depth.getD b 0 < n) && decide (root.getD b 0 ≤ b) &&
+    (if depth.getD b 0 = 0 then root.getD b 0 == b
+     else
+      (let e := parc.getD b 0
+       let a := f.arcs.getD e default
+       decide (e < m) && a.onTree &&
+         ((a.src == b && depth.getD a.dst 0 + 1 == depth.getD b 0 &&
+            root.getD a.dst 0 == root.getD b 0) ||
+          (a.dst == b && depth.getD a.src 0 + 1 == depth.getD b 0 &&
+            root.getD a.src 0 == root.getD b 0))))) &&
   (indexed f.arcs 0).all (fun ea => !ea.2.onTree ||
-    (List.range n).any (fun b => b != 0 && parc.getD b 0 == ea.1)) &&
-  depth.all (fun d => decide (d < n))
+    (List.range n).any (fun b => decide (0 < depth.getD b 0) && parc.getD b 0 == ea.1))
 
-/-- one relaxation round: a tree arc with exactly one labelled end labels the other end -/
-def certStep (arcs : List (Nat × Arc)) (dp : List (Option (Nat × Nat))) :
-    List (Option (Nat × Nat)) :=
-  arcs.foldl (fun dp ea =>
-    if ea.2.onTree then
-      match dp.getD ea.2.src none, dp.getD ea.2.dst none with
-      | some (d, _), none => dp.set ea.2.dst (some (d + 1, ea.1))
-      | none, some (d, _) => dp.set ea.2.src (some (d + 1, ea.1))
-      | _, _ => dp
-    else dp) dp
+/-- label (depth, parent arc, root) -/
+abbrev Lab := Option (Nat × Nat × Nat)
 
-def iter {α : Type} (g : α → α) : Nat → α → α
-  | 0, a => a
-  | k + 1, a => iter g k (g a)
+/-- breadth-first labelling along on-tree arcs from the blocks in `work` -/
+def bfs (f : Func) : Nat → List Nat → List Lab → List Lab
+  | 0, _, lab => lab
+  | _, [], lab => lab
+  | fuel + 1, x :: work, lab =>
+    match lab.getD x none, f.blocks[x]? with
+    | some (d, _, r), some blk =>
+      let visit := fun (acc : List Nat × List Lab) (ew : Nat × Nat) =>
+        -- ew = (arc id, far end)
+        if (f.arcs.getD ew.1 default).onTree && (acc.2.getD ew.2 none).isNone then
+          (acc.1 ++ [ew.2], acc.2.set ew.2 (some (d + 1, ew.1, r)))
+        else acc
+      let acc := (blk.source.map fun e => (e, (f.arcs.getD e default).src)).foldl visit (work, lab)
+      let acc := (blk.destination.map fun e => (e, (f.arcs.getD e default).dst)).foldl visit acc
+      bfs f fuel acc.1 acc.2
+    | _, _ => bfs f fuel work lab
 
-def computeCert (f : Func) : List Nat × List Nat :=
+/-- roots in increasing block order: an unlabelled block starts a new tree -/
+def labelAll (f : Func) : List Nat → List Lab → List Lab
+  | [], lab => lab
+  | b :: bs, lab =>
+    if (lab.getD b none).isNone then
+      labelAll f bs (bfs f (f.blocks.length + 1) [b] (lab.set b (some (0, 0, b))))
+    else labelAll f bs lab
+
+def computeCert (f : Func) : List Nat × List Nat × List Nat :=
   let n := f.blocks.length
-  let dp := iter (certStep (indexed f.arcs 0)) n ((List.replicate n none).set 0 (some (0, 0)))
-  (dp.map fun o => (o.getD (0, 0)).1, dp.map fun o => (o.getD (0, 0)).2)
+  let lab := labelAll f (List.range n) (List.replicate n none)
+  (lab.map fun o => (o.getD (0, 0, 0)).1, lab.map fun o => (o.getD (0, 0, 0)).2.1,
+   lab.map fun o => (o.getD (0, 0, 0)).2.2)
 
-/-- the shape is consistent and its on-tree arcs form a spanning tree rooted at block 0 -/
+/-- the shape is consistent and its on-tree arcs form a forest (with certificate) -/
 def isSpanTree (f : Func) : Bool :=
   let c := computeCert f
-  wfShape f && treeCert f c.1 c.2
+  wfShape f && treeCert f c.1 c.2.1 c.2.2
 
 end Grcov.Gcno
